@@ -8,7 +8,7 @@ import LMV.Driver.Util
 namespace LMV.Driver.C07
 open LMV LMV.Maximum LMV.Driver
 
-def ops : List String := ["c07"]
+def ops : List String := ["c07", "c07isa"]
 
 /-- IEEE comparisons of `f32` -/
 def cmpF32 : Cmp Float32 where
@@ -183,6 +183,17 @@ def handle (toks : List String) : String :=
       else if backend.startsWith "disp-" then
         runDispU8 b op ⟨Mat.ofFn rows f, mi⟩ t backend impl
       else runPipeU8 b op C rows f t backend impl
+  -- ISA validation of the two rearranging intrinsics of argmax_u8_avx2
+  | "c07isa" :: "unpack" :: hi :: bytes =>
+    let v := (bytes.map parseNat!).toArray
+    let a := fun i => v.getD i 0
+    let b := fun i => v.getD (32 + i) 0
+    joinNat ((List.range 32).map fun d =>
+      let s := unpackEpi8Src (hi == "hi") d
+      if s.1 then b s.2 else a s.2)
+  | "c07isa" :: "perm" :: imm :: lanes =>
+    let v := lanes.map parseNat!
+    joinNat (LMV.Gen.MaxK.Src.lanes 0 16 v (.perm 0 1 (parseNat! imm)))
   | _ => "bad-case"
 
 end LMV.Driver.C07
